@@ -30,6 +30,8 @@ type Case struct {
 	Names   []NameRec
 	KF      string // id of the known finding whose shape this input has ("" = none)
 	NoPredict bool // hand-written source: outside the abstract syntax of the models
+	AutoNames bool // C13: judge every written parameter name the models say collides with nothing
+	DropKF    bool // leave the case out when the models predict the shape of a recorded finding
 	Install   string // regenerate with the first output installed under this file name (C15)
 	AliasOverride map[string]string // model input only: aliases as harvested when moq's own output is part of the package
 	FailAfter *int   // writer that fails after so many bytes (C17)
